@@ -11,6 +11,18 @@
 //!                replicas' real registers, local suspect/fail/refute/mark_healthy/update_local,
 //!                compared op by op (return value + full view + lamport time) with the model;
 //!                monotonicity oracles after every op.
+//!   unsorted_batches[.directed]  scripts on 1-4 real replicas: batches in arbitrary internal order
+//!                (head usually not the newest entry, newest entry ahead of the receiver's clock),
+//!                local suspect/fail/refute/mark_healthy on members received through such a batch,
+//!                re-deliveries of earlier batches (re-ordered, partial) and late updates with
+//!                in-between timestamps; mirrored replicas get the same steps with only the order
+//!                inside each batch changed.  Oracles on the real objects (struct `Lab`):
+//!                lww/clock_behind_held_timestamp, <op>_key_decreased, lww/local_event_lost_to_redelivery,
+//!                lww/redelivery_changed_view, view_not_join_of_seen, lww/replicas_diverge_same_inputs;
+//!                failing scripts are shrunk (steps, replicas, batch entries) with `shrink_list`.
+//!                The directed scripts (the seeded C17_2 shapes) run before every other stream.
+//!   In every history stream the model is asked only until the first disagreement; the real
+//!   replicas / managers and all oracles on them keep running to the end of the history.
 //!   lww.system   multi-node runs in which only member m announces incarnations for m
 //!                (Alive -> refute), with the `failed/recorded inc <= announced` oracle and a final
 //!                anti-entropy round after which all views must be identical.
@@ -424,25 +436,61 @@ fn apply_real(reps: &mut [LWWMembershipState], op: &Op, names: &[String]) -> Str
     format!("{head} | {}", view_txt(reps[r].lamport_time(), &cview(&reps[r], names)))
 }
 
-/// monotonicity oracles on the implementation's own before/after views
-fn mono_oracles(rep: &mut Report, site: &str, opname: &str, before: (&CView, u64), after: (&CView, u64), hist: &dyn Fn() -> Value) {
+/// `health_tie_rank` by `hidx`: Healthy < Unknown < Degraded < Failed
+const RANK: [usize; 4] = [0, 2, 3, 1];
+
+/// the register key `(incarnation, timestamp, health_tie_rank)` of a view entry
+fn vkey(e: (usize, u64, u64)) -> (u64, u64, usize) {
+    (e.2, e.1, RANK[e.0])
+}
+
+fn ukey(u: &Upd) -> (u64, u64, usize) {
+    (u.inc, u.ts, RANK[u.h])
+}
+
+/// monotonicity / clock oracles on the implementation's own before/after views: (class, what)
+fn mono_classes(site: &str, opname: &str, before: (&CView, u64), after: (&CView, u64)) -> Vec<(String, String)> {
+    let mut out = vec![];
     if after.1 < before.1 {
-        rep.violation_capped(&format!("{site}/{opname}_clock_decreased"), "lamport clock moved backwards", hist());
+        out.push((format!("{site}/{opname}_clock_decreased"), "lamport clock moved backwards".to_string()));
+    }
+    // the invariant that makes local events win: the clock dominates every held timestamp
+    if let Some((m, ts)) = (0..K).filter_map(|m| after.0[m].map(|e| (m, e.1))).max_by_key(|x| x.1) {
+        if after.1 < ts {
+            let class = if site == "tensor_chain.gossip" {
+                "tensor_chain.gossip.lww/clock_behind_held_timestamp".to_string()
+            } else {
+                format!("{site}/clock_behind_held_timestamp")
+            };
+            out.push((class, format!("after {opname}: lamport clock {} is behind the timestamp {ts} held for member {m}", after.1)));
+        }
     }
     for m in 0..K {
         match (before.0[m], after.0[m]) {
             (Some((_, _, i0)), Some((_, _, i1))) if i1 < i0 => {
-                rep.violation_capped(
-                    &format!("{site}/{opname}_incarnation_decreased"),
-                    &format!("recorded incarnation of member {m} went from {i0} to {i1}"),
-                    hist(),
-                );
+                out.push((format!("{site}/{opname}_incarnation_decreased"), format!("recorded incarnation of member {m} went from {i0} to {i1}")));
+            }
+            (Some(b), Some(a)) if vkey(a) < vkey(b) => {
+                out.push((
+                    format!("{site}/{opname}_key_decreased"),
+                    format!(
+                        "member {m}'s (incarnation, timestamp, severity) moved backwards: {}:{}:{} -> {}:{}:{}",
+                        HL[b.0], b.1, b.2, HL[a.0], a.1, a.2
+                    ),
+                ));
             }
             (Some(_), None) => {
-                rep.violation_capped(&format!("{site}/{opname}_member_forgotten"), &format!("member {m} disappeared"), hist());
+                out.push((format!("{site}/{opname}_member_forgotten"), format!("member {m} disappeared")));
             }
             _ => {}
         }
+    }
+    out
+}
+
+fn mono_oracles(rep: &mut Report, site: &str, opname: &str, before: (&CView, u64), after: (&CView, u64), hist: &dyn Fn() -> Value) {
+    for (class, what) in mono_classes(site, opname, before, after) {
+        rep.violation_capped(&class, &what, hist());
     }
 }
 
@@ -473,6 +521,560 @@ fn to_upds(v: &[GossipNodeState], names: &[String]) -> Vec<Upd> {
         .collect()
 }
 
+// ------------------------------------------------------------------ unsorted batches / re-delivery lab
+
+/// a guarded local event on one member
+#[derive(Clone, Debug)]
+enum Ev {
+    Suspect(usize, u64),
+    Fail(usize),
+    Refute(usize, u64),
+    MarkHealthy(usize),
+}
+
+/// one step of an `unsorted_batches` script: the SAME input handed to every replica in `to`
+#[derive(Clone, Debug)]
+enum G {
+    /// the multiset `base` merged as ONE batch at each replica `to[j]`, entries in the order `perms[j]`
+    Merge { to: Vec<usize>, base: Vec<Upd>, perms: Vec<Vec<usize>> },
+    Local { to: Vec<usize>, ev: Ev },
+}
+
+impl G {
+    fn ops(&self) -> Vec<Op> {
+        match self {
+            G::Merge { to, base, perms } => to.iter().zip(perms).map(|(&r, p)| Op::Merge(r, p.iter().map(|&i| base[i]).collect())).collect(),
+            G::Local { to, ev } => to
+                .iter()
+                .map(|&r| match ev {
+                    Ev::Suspect(m, i) => Op::Suspect(r, *m, *i),
+                    Ev::Fail(m) => Op::Fail(r, *m),
+                    Ev::Refute(m, i) => Op::Refute(r, *m, *i),
+                    Ev::MarkHealthy(m) => Op::MarkHealthy(r, *m),
+                })
+                .collect(),
+        }
+    }
+    /// the step without replica `r` (None when nobody is left)
+    fn without(&self, r: usize) -> Option<G> {
+        match self {
+            G::Merge { to, base, perms } => {
+                let keep: Vec<usize> = (0..to.len()).filter(|&j| to[j] != r).collect();
+                if keep.is_empty() {
+                    return None;
+                }
+                Some(G::Merge { to: keep.iter().map(|&j| to[j]).collect(), base: base.clone(), perms: keep.iter().map(|&j| perms[j].clone()).collect() })
+            }
+            G::Local { to, ev } => {
+                let t: Vec<usize> = to.iter().copied().filter(|&x| x != r).collect();
+                if t.is_empty() {
+                    None
+                } else {
+                    Some(G::Local { to: t, ev: ev.clone() })
+                }
+            }
+        }
+    }
+    /// keep only the entries `keep` (indices into `base`) of a merge step
+    fn restrict(&self, keep: &[usize]) -> G {
+        match self {
+            G::Merge { to, base, perms } => G::Merge {
+                to: to.clone(),
+                base: keep.iter().map(|&i| base[i]).collect(),
+                perms: perms.iter().map(|p| p.iter().filter_map(|i| keep.iter().position(|k| k == i)).collect()).collect(),
+            },
+            g => g.clone(),
+        }
+    }
+}
+
+/// Real replicas + the property oracles evaluated on them alone (no model involved):
+///   * lww/clock_behind_held_timestamp, *_key_decreased, … (`mono_classes`) after every op;
+///   * lww/local_event_lost_to_redelivery / lww/redelivery_changed_view: a merge whose entries for
+///     member m are all dominated (key order) by something the replica already merged or generated
+///     must leave m's register alone;
+///   * view_not_join_of_seen: after every op the register of m is the greatest key among everything
+///     the replica merged or generated for m (maximum computed here, from the inputs);
+///   * lww/replicas_diverge_same_inputs: replicas that were handed the same steps — every merge the
+///     same multiset in the same grouping, only the order INSIDE the batches differs — and the same
+///     local events hold identical registers.
+struct Lab<'a> {
+    names: &'a [String],
+    reps: Vec<LWWMembershipState>,
+    seen_max: Vec<[Option<(u64, u64, usize)>; K]>,
+    /// register written by the last successful local event on (replica, member), while it is the view
+    local_set: Vec<[Option<(usize, u64, u64)>; K]>,
+    sig: Vec<Vec<String>>,
+    sig_h: Vec<u64>,
+    nops: usize,
+    local_true: usize,
+    viol: Vec<(String, String)>,
+}
+
+impl<'a> Lab<'a> {
+    fn new(n: usize, names: &'a [String]) -> Self {
+        Lab {
+            names,
+            reps: (0..n).map(|_| LWWMembershipState::new()).collect(),
+            seen_max: vec![[None; K]; n],
+            local_set: vec![[None; K]; n],
+            sig: vec![Vec::new(); n],
+            sig_h: vec![0; n],
+            nops: 0,
+            local_true: 0,
+            viol: vec![],
+        }
+    }
+
+    fn flag(&mut self, class: &str, what: String) {
+        if !self.viol.iter().any(|(c, _)| c == class) {
+            self.viol.push((class.to_string(), what));
+        }
+    }
+
+    fn step(&mut self, op: &Op) -> String {
+        let r = op.replica();
+        let before = (cview(&self.reps[r], self.names), self.reps[r].lamport_time());
+        let imp = apply_real(&mut self.reps, op, self.names);
+        let after = (cview(&self.reps[r], self.names), self.reps[r].lamport_time());
+        self.nops += 1;
+        let at = format!("(step {}: `{}`)", self.nops, op.line());
+        for (c, w) in mono_classes("tensor_chain.gossip", op.name(), (&before.0, before.1), (&after.0, after.1)) {
+            self.flag(&c, format!("{w} {at}"));
+        }
+        if let Op::Merge(_, b) = op {
+            for m in 0..K {
+                if !b.iter().any(|u| u.m == m) {
+                    continue;
+                }
+                if after.0[m] == before.0[m] {
+                    continue;
+                }
+                if let Some(mx) = self.seen_max[r][m] {
+                    if b.iter().filter(|u| u.m == m).all(|u| ukey(u) <= mx) {
+                        let txt = |e: Option<(usize, u64, u64)>| e.map_or("-".to_string(), |e| format!("{}:{}:{}", HL[e.0], e.1, e.2));
+                        if self.local_set[r][m].is_some() && self.local_set[r][m] == before.0[m] {
+                            self.flag(
+                                "tensor_chain.gossip.lww/local_event_lost_to_redelivery",
+                                format!("replica {r}: the register {} a local event wrote for member {m} was replaced by {} when a batch of already-seen / older updates was merged {at}", txt(before.0[m]), txt(after.0[m])),
+                            );
+                        } else {
+                            self.flag(
+                                "tensor_chain.gossip.lww/redelivery_changed_view",
+                                format!("replica {r}: member {m} went {} -> {} when a batch of already-seen / older updates was merged {at}", txt(before.0[m]), txt(after.0[m])),
+                            );
+                        }
+                    }
+                }
+                self.local_set[r][m] = None;
+            }
+        }
+        let em = emitted_real(op, &imp, &after.0);
+        if !matches!(op, Op::Merge(..)) {
+            if let Some(u) = em.first() {
+                self.local_set[r][u.m] = after.0[u.m];
+                self.local_true += 1;
+            }
+        }
+        for u in &em {
+            if u.m < K && self.seen_max[r][u.m].map_or(true, |mx| ukey(u) > mx) {
+                self.seen_max[r][u.m] = Some(ukey(u));
+            }
+        }
+        for m in 0..K {
+            let have = after.0[m].map(vkey);
+            let want = self.seen_max[r][m];
+            if have != want {
+                let tie = matches!((have, want), (Some(a), Some(b)) if a.0 == b.0 && a.1 == b.1);
+                let class = if tie { "tensor_chain.gossip/view_not_join_of_seen_tie" } else { "tensor_chain.gossip/view_not_join_of_seen" };
+                self.flag(class, format!("replica {r}: register (inc, ts, rank) {have:?} of member {m} is not the greatest {want:?} of the updates it merged or generated {at}"));
+            }
+        }
+        let canon = match op {
+            Op::Merge(_, b) => {
+                let mut c = b.clone();
+                c.sort();
+                format!("merge {}", batch_txt(&c))
+            }
+            o => {
+                let l = o.line();
+                let mut w: Vec<&str> = l.split(' ').collect();
+                w.remove(1); // the replica index
+                w.join(" ")
+            }
+        };
+        self.sig_h[r] = fnv(&format!("{}|{canon}", self.sig_h[r]));
+        self.sig[r].push(canon);
+        imp
+    }
+
+    /// after every replica of a step has applied it
+    fn after_group(&mut self) {
+        let n = self.reps.len();
+        for i in 0..n {
+            for j in (i + 1)..n {
+                if self.sig_h[i] != self.sig_h[j] || self.sig[i] != self.sig[j] || self.sig[i].is_empty() {
+                    continue;
+                }
+                let (vi, vj) = (cview(&self.reps[i], self.names), cview(&self.reps[j], self.names));
+                if let Some((m, _)) = diff_kind(&vi, &vj) {
+                    self.flag(
+                        "tensor_chain.gossip.lww/replicas_diverge_same_inputs",
+                        format!(
+                            "replicas {i} and {j} merged the same batches (only the order inside the batches differs) and ran the same local events, but differ on member {m} after step {}: {} vs {}",
+                            self.nops,
+                            regs_txt(&vi),
+                            regs_txt(&vj)
+                        ),
+                    );
+                }
+            }
+        }
+    }
+}
+
+fn run_groups<'a>(gs: &[G], n: usize, names: &'a [String]) -> Lab<'a> {
+    let mut lab = Lab::new(n, names);
+    for g in gs {
+        for op in g.ops() {
+            lab.step(&op);
+        }
+        lab.after_group();
+    }
+    lab
+}
+
+fn script_fails(gs: &[G], n: usize, names: &[String], class: &str) -> bool {
+    run_groups(gs, n, names).viol.iter().any(|(c, _)| c == class)
+}
+
+/// shrink a failing script (whole steps, then the entries inside each batch) and report it
+fn report_shrunk(rep: &mut Report, stream: &str, case: &str, class: &str, gs: &[G], n: usize, names: &[String]) {
+    if rep.violations.iter().filter(|v| v["class"] == class).count() >= 4 {
+        return;
+    }
+    let mut cur = shrink_list(gs, &mut |cand: &[G]| script_fails(cand, n, names, class));
+    for rr in (0..n).rev() {
+        let cand: Vec<G> = cur.iter().filter_map(|g| g.without(rr)).collect();
+        if !cand.is_empty() && script_fails(&cand, n, names, class) {
+            cur = cand;
+        }
+    }
+    cur = shrink_list(&cur, &mut |cand: &[G]| script_fails(cand, n, names, class));
+    for gi in 0..cur.len() {
+        let g0 = cur[gi].clone();
+        if let G::Merge { base, .. } = &g0 {
+            if base.len() > 1 {
+                let idx: Vec<usize> = (0..base.len()).collect();
+                let kept = shrink_list(&idx, &mut |keep: &[usize]| {
+                    let mut c = cur.clone();
+                    c[gi] = g0.restrict(keep);
+                    script_fails(&c, n, names, class)
+                });
+                cur[gi] = g0.restrict(&kept);
+            }
+        }
+    }
+    let lab = run_groups(&cur, n, names);
+    let what = lab.viol.iter().find(|(c, _)| c == class).map(|(_, w)| w.clone()).unwrap_or_default();
+    let history: Vec<String> = cur.iter().flat_map(|g| g.ops()).map(|o| o.line()).collect();
+    let views: Vec<String> = lab.reps.iter().map(|r| view_txt(r.lamport_time(), &cview(r, names))).collect();
+    rep.violation_capped(
+        class,
+        &what,
+        json!({"stream": stream, "case": case, "replicas": n, "history": history, "final_views": views,
+               "steps_before_shrinking": gs.iter().map(|g| g.ops().len()).sum::<usize>()}),
+    );
+}
+
+/// run a script on real replicas and on the model (asked until the first disagreement), then
+/// report every oracle class it raised with a shrunk script
+fn run_script(rep: &mut Report, m: &mut Model, stream: &str, case: &str, gs: &[G], n: usize, names: &[String]) {
+    m.ask("reset");
+    let mut lab = Lab::new(n, names);
+    let mut hist: Vec<String> = vec![];
+    let mut live = true;
+    for g in gs {
+        for op in g.ops() {
+            let line = op.line();
+            hist.push(line.clone());
+            let imp = lab.step(&op);
+            if live {
+                let ans = m.ask(&line);
+                live = rep.compare(stream, || json!({"case": case, "history": hist}), &imp, &ans);
+            }
+        }
+        lab.after_group();
+    }
+    let viol = lab.viol.clone();
+    for (class, _) in &viol {
+        report_shrunk(rep, stream, case, class, gs, n, names);
+    }
+    rep.case(stream, Some(&format!("{case}|{}", hist.join("/"))));
+}
+
+fn up(m: usize, h: char, ts: u64, inc: u64) -> Upd {
+    Upd { m, h: HL.iter().position(|c| *c == h).unwrap(), ts, inc }
+}
+
+fn merge_g(to: &[usize], base: &[Upd], perms: &[&[usize]]) -> G {
+    G::Merge { to: to.to_vec(), base: base.to_vec(), perms: perms.iter().map(|p| p.to_vec()).collect() }
+}
+
+/// directed scripts, run before every other stream: batches whose head is not their newest entry,
+/// a local event on a member received through such a batch, re-delivery / late in-between updates
+fn directed_unsorted(rep: &mut Report, m: &mut Model, names: &[String]) {
+    let stream = "unsorted_batches.directed";
+    let mut cases: Vec<(&str, usize, Vec<G>)> = vec![];
+    // two replicas, same updates, only the order inside the first batch differs, same local fail,
+    // same late update older than what both hold
+    cases.push((
+        "two_replicas_batch_order_then_fail_then_late_update",
+        2,
+        vec![
+            merge_g(&[0, 1], &[up(1, 'H', 9, 1), up(2, 'H', 3, 1)], &[&[0, 1], &[1, 0]]),
+            G::Local { to: vec![0, 1], ev: Ev::Fail(1) },
+            merge_g(&[0, 1], &[up(1, 'H', 7, 1)], &[&[0], &[0]]),
+        ],
+    ));
+    // a re-delivered batch after a local fail must be a no-op
+    cases.push((
+        "redelivered_batch_after_local_fail",
+        1,
+        vec![
+            merge_g(&[0], &[up(2, 'H', 3, 1), up(1, 'H', 9, 1)], &[&[0, 1]]),
+            G::Local { to: vec![0], ev: Ev::Fail(1) },
+            merge_g(&[0], &[up(2, 'H', 3, 1), up(1, 'H', 9, 1)], &[&[0, 1]]),
+        ],
+    ));
+    // the clock must dominate every held timestamp; a local suspect must not be stamped older
+    cases.push((
+        "clock_below_held_timestamp_then_suspect",
+        1,
+        vec![
+            merge_g(&[0], &[up(2, 'H', 3, 1), up(3, 'H', 5, 2), up(1, 'H', 9, 1)], &[&[0, 1, 2]]),
+            G::Local { to: vec![0], ev: Ev::Suspect(1, 1) },
+        ],
+    ));
+    // every local event kind x re-delivery in both orders x a late in-between update
+    for (name, first, ev) in [
+        ("suspect_then_redelivery", 'H', Ev::Suspect(1, 1)),
+        ("fail_then_redelivery", 'D', Ev::Fail(1)),
+        ("mark_healthy_then_redelivery", 'F', Ev::MarkHealthy(1)),
+        ("refute_then_redelivery", 'D', Ev::Refute(1, 2)),
+    ] {
+        let base = [up(0, 'H', 2, 0), up(1, first, 12, 1), up(2, 'U', 6, 0)];
+        cases.push((
+            name,
+            3,
+            vec![
+                merge_g(&[0, 1, 2], &base, &[&[1, 0, 2], &[0, 1, 2], &[2, 0, 1]]),
+                G::Local { to: vec![0, 1, 2], ev },
+                merge_g(&[0, 1, 2], &base, &[&[2, 1, 0], &[0, 2, 1], &[1, 2, 0]]),
+                merge_g(&[0, 1, 2], &[up(1, first, 8, 1), up(1, 'H', 5, 1)], &[&[0, 1], &[1, 0], &[0, 1]]),
+            ],
+        ));
+    }
+    // four replicas, the four rotations of one relayed batch (two newest-first batches concatenated)
+    {
+        let base = [up(1, 'F', 5, 1), up(2, 'H', 2, 0), up(3, 'D', 9, 1), up(0, 'H', 4, 0)];
+        cases.push((
+            "four_replicas_rotations_of_a_concatenated_batch",
+            4,
+            vec![
+                merge_g(&[0, 1, 2, 3], &base, &[&[0, 1, 2, 3], &[1, 2, 3, 0], &[2, 3, 0, 1], &[3, 0, 1, 2]]),
+                G::Local { to: vec![0, 1, 2, 3], ev: Ev::MarkHealthy(3) },
+                G::Local { to: vec![0, 1, 2, 3], ev: Ev::Suspect(2, 0) },
+                merge_g(&[0, 1, 2, 3], &[up(3, 'D', 7, 1), up(2, 'H', 1, 0)], &[&[0, 1], &[1, 0], &[0, 1], &[1, 0]]),
+                merge_g(&[0, 1, 2, 3], &base, &[&[3, 2, 1, 0], &[0, 1, 2, 3], &[1, 0, 3, 2], &[2, 3, 0, 1]]),
+            ],
+        ));
+    }
+    // the stale entry arrives on ONE replica only after the other has been told the same through gossip
+    cases.push((
+        "local_fail_gossiped_then_old_batch_redelivered",
+        2,
+        vec![
+            merge_g(&[0], &[up(2, 'H', 1, 0), up(1, 'H', 6, 0)], &[&[0, 1]]),
+            merge_g(&[1], &[up(2, 'H', 1, 0), up(1, 'H', 6, 0)], &[&[1, 0]]),
+            G::Local { to: vec![0], ev: Ev::Fail(1) },
+            G::Local { to: vec![1], ev: Ev::Suspect(1, 0) },
+            merge_g(&[0, 1], &[up(1, 'H', 6, 0), up(2, 'H', 1, 0)], &[&[1, 0], &[1, 0]]),
+        ],
+    ));
+    for (name, n, gs) in cases {
+        run_script(rep, m, stream, name, &gs, n, names);
+        rep.hit("unsorted.directed_scripts");
+    }
+}
+
+/// the seeded stream: batches in random internal order (head usually NOT the newest entry, and
+/// often ahead of the receiver's clock), local events on members received via merge, re-deliveries
+/// of earlier batches (re-ordered, partial) and late updates with in-between timestamps, 2-4 replicas
+fn unsorted_stream(rep: &mut Report, m: &mut Model, names: &[String], root: &Rng, cases: u64) {
+    let stream = "unsorted_batches";
+    let mut r = root.fork("unsorted_batches");
+    for case in 0..cases {
+        let n = 2 + r.below(3) as usize;
+        let members = 2 + r.below(3) as usize;
+        let all: Vec<usize> = (0..n).collect();
+        let all_mirror = r.chance(1, 2);
+        let ngroups = 5 + r.below(16) as usize;
+        m.ask("reset");
+        let mut lab = Lab::new(n, names);
+        let mut gs: Vec<G> = vec![];
+        let mut hist: Vec<String> = vec![];
+        let mut live = true;
+        for gno in 0..ngroups {
+            let to: Vec<usize> = if all_mirror || r.chance(1, 2) { all.clone() } else { vec![r.below(n as u64) as usize] };
+            let r0 = to[0];
+            let view0 = cview(&lab.reps[r0], names);
+            let clock0 = lab.reps[r0].lamport_time();
+            let present: Vec<usize> = (0..members).filter(|&mm| view0[mm].is_some()).collect();
+            let earlier: Vec<usize> = gs.iter().enumerate().filter(|(_, g)| matches!(g, G::Merge { .. })).map(|(i, _)| i).collect();
+            let shuffled = |r: &mut Rng, base: &[Upd], force: bool| -> Vec<usize> {
+                let mut p: Vec<usize> = (0..base.len()).collect();
+                r.shuffle(&mut p);
+                if force && !p.is_empty() {
+                    let mx = base.iter().map(|u| u.ts).max().unwrap_or(0);
+                    if base[p[0]].ts == mx {
+                        let cand: Vec<usize> = (1..p.len()).filter(|&k| base[p[k]].ts < mx).collect();
+                        if !cand.is_empty() {
+                            let k = *r.pick(&cand);
+                            p.swap(0, k);
+                        }
+                    }
+                }
+                p
+            };
+            let kind = if gno == 0 { 0 } else { r.below(20) };
+            let g = match kind {
+                // a local event on a member whose entry came in through a merge
+                7..=12 if !present.is_empty() => {
+                    let mm = *r.pick(&present);
+                    let cur = view0[mm].map_or(0, |e| e.2);
+                    let ev = match r.below(6) {
+                        0 | 1 => Ev::Fail(mm),
+                        2 | 3 => Ev::Suspect(mm, if r.chance(7, 8) { cur } else { cur + 1 }),
+                        4 => Ev::MarkHealthy(mm),
+                        _ => Ev::Refute(mm, cur + r.below(2)),
+                    };
+                    if lab.local_set[r0][mm].is_none() {
+                        rep.hit("unsorted.local_event_on_entry_received_by_merge");
+                    }
+                    G::Local { to, ev }
+                }
+                // re-delivery of an earlier batch: re-ordered, sometimes partial
+                13..=16 if !earlier.is_empty() => {
+                    let gi = *r.pick(&earlier);
+                    let mut base = match &gs[gi] {
+                        G::Merge { base, .. } => base.clone(),
+                        _ => vec![],
+                    };
+                    if base.len() > 1 && r.chance(1, 3) {
+                        let drop = r.below(base.len() as u64) as usize;
+                        base.remove(drop);
+                    }
+                    rep.hit("unsorted.redelivery");
+                    if to.iter().any(|&t| base.iter().any(|u| lab.local_set[t][u.m].is_some())) {
+                        rep.hit("unsorted.redelivery_onto_a_local_verdict");
+                    }
+                    let perms = to.iter().map(|_| shuffled(&mut r, &base, true)).collect();
+                    G::Merge { to, base, perms }
+                }
+                // late updates: same incarnation, timestamp at or below the newest one held
+                17..=19 if !present.is_empty() => {
+                    let k = 1 + r.below(2) as usize;
+                    let base: Vec<Upd> = (0..k)
+                        .map(|_| {
+                            let mm = *r.pick(&present);
+                            let e = view0[mm].unwrap();
+                            let top = lab.seen_max[r0][mm].map_or(e.1, |x| x.1.max(e.1));
+                            Upd { m: mm, h: r.below(4) as usize, ts: r.below(top + 1), inc: e.2 }
+                        })
+                        .collect();
+                    rep.hit("unsorted.in_between_update");
+                    let perms = to.iter().map(|_| shuffled(&mut r, &base, false)).collect();
+                    G::Merge { to, base, perms }
+                }
+                // a fresh batch, timestamps around and ahead of the receiver's clock
+                _ => {
+                    let k = 2 + r.below(4) as usize;
+                    let base: Vec<Upd> = (0..k)
+                        .map(|_| {
+                            let mm = r.below(members as u64) as usize;
+                            let inc = match view0[mm] {
+                                Some(e) if r.chance(3, 4) => e.2,
+                                _ => r.below(3),
+                            };
+                            Upd { m: mm, h: r.below(4) as usize, ts: clock0.saturating_sub(3) + r.below(12), inc }
+                        })
+                        .collect();
+                    let mut perms: Vec<Vec<usize>> = vec![];
+                    for j in 0..to.len() {
+                        let force = j > 0 || r.chance(3, 4);
+                        perms.push(shuffled(&mut r, &base, force));
+                    }
+                    G::Merge { to, base, perms }
+                }
+            };
+            if let G::Merge { to, base, perms } = &g {
+                rep.hit("unsorted.batch");
+                let mx = base.iter().map(|u| u.ts).max().unwrap_or(0);
+                for (j, p) in perms.iter().enumerate() {
+                    if base[p[0]].ts < mx {
+                        rep.hit("unsorted.batch.head_not_newest");
+                        if mx > lab.reps[to[j]].lamport_time() {
+                            rep.hit("unsorted.batch.newest_entry_ahead_of_clock_and_not_at_head");
+                        }
+                    }
+                }
+                if to.len() > 1 && perms.windows(2).any(|w| w[0] != w[1]) {
+                    rep.hit("unsorted.batch.mirrored_in_different_orders");
+                }
+            }
+            for op in g.ops() {
+                let line = op.line();
+                hist.push(line.clone());
+                let imp = lab.step(&op);
+                if !matches!(op, Op::Merge(..)) {
+                    rep.hit(&format!("{}.{}", op.name(), imp.starts_with("true")));
+                }
+                if live {
+                    let ans = m.ask(&line);
+                    if !rep.compare(stream, || json!({"history": hist}), &imp, &ans) {
+                        live = false; // the real replicas and their oracles go on without the model
+                        rep.hit("unsorted.real_only_after_divergence");
+                    }
+                }
+            }
+            lab.after_group();
+            gs.push(g);
+        }
+        let viol = lab.viol.clone();
+        for (class, _) in &viol {
+            rep.hit(&format!("unsorted.seeded_cases_raising.{}", class.rsplit('/').next().unwrap_or("")));
+            report_shrunk(rep, stream, &format!("seeded case {case}"), class, &gs, n, names);
+        }
+        rep.hit_n("unsorted.replica_pairs_with_same_inputs_checked", {
+            let mut c = 0;
+            for i in 0..n {
+                for j in (i + 1)..n {
+                    if lab.sig[i] == lab.sig[j] {
+                        c += 1;
+                    }
+                }
+            }
+            c
+        });
+        let hkey = hist.join("/");
+        rep.case(stream, if lab.local_true > 0 { Some(&hkey) } else { None });
+        if case == 0 {
+            rep.sample(json!({"stream": stream, "replicas": n, "history": hist[..hist.len().min(14)]}));
+        }
+    }
+}
+
 fn main() {
     let args = parse_args();
     let mut rep = Report::new(
@@ -498,6 +1100,8 @@ fn main() {
 
     // ---------------------------------------------------------------- corpus (run first)
     corpus_stream(&mut rep, &mut m, &names);
+    directed_unsorted(&mut rep, &mut m, &names);
+    directed_manager(&mut rep, &mut m, &names);
 
     // ---------------------------------------------------------------- exhaustive streams
     {
@@ -611,13 +1215,17 @@ fn main() {
                 }
                 let h = hist.clone();
                 mono_oracles(&mut rep, "tensor_chain.gossip", op.name(), (&before.0, before.1), (&after.0, after.1), &|| json!({"history": h}));
-                let ans = m.ask(&line);
-                if !rep.compare("lww.random", || json!({"history": hist}), &imp, &ans) {
-                    ok = false;
-                    break;
+                // the model is asked until the first disagreement; the real replicas and every
+                // oracle on them keep running to the end of the history
+                if ok {
+                    let ans = m.ask(&line);
+                    if !rep.compare("lww.random", || json!({"history": hist}), &imp, &ans) {
+                        ok = false;
+                        rep.hit("random.real_only_after_divergence");
+                    }
                 }
             }
-            if ok {
+            {
                 for rr in 0..nrep {
                     let mut sn = seen[rr].clone();
                     r.shuffle(&mut sn);
@@ -634,6 +1242,13 @@ fn main() {
         }
     }
 
+    // ---------------------------------------------------------------- unsorted batches, local events, re-deliveries
+    {
+        let t0 = std::time::Instant::now();
+        unsorted_stream(&mut rep, &mut m, &names, &root, 2000 * scale);
+        rep.note(&format!("unsorted_batches: {:.1}s", t0.elapsed().as_secs_f64()));
+    }
+
     // ---------------------------------------------------------------- multi-node system runs
     {
         let mut r = root.fork("lww.system");
@@ -644,7 +1259,8 @@ fn main() {
             let mut announced = vec![0u64; n];
             let mut alive: Vec<(usize, u64)> = Vec::new();
             let mut hist: Vec<String> = Vec::new();
-            let mut run = |op: Op, reps: &mut Vec<LWWMembershipState>, hist: &mut Vec<String>, rep: &mut Report, m: &mut Model| -> bool {
+            let live = std::cell::Cell::new(true);
+            let run = |op: Op, reps: &mut Vec<LWWMembershipState>, hist: &mut Vec<String>, rep: &mut Report, m: &mut Model| {
                 let line = op.line();
                 hist.push(line.clone());
                 let rr = op.replica();
@@ -656,14 +1272,19 @@ fn main() {
                 if !matches!(op, Op::Merge(..) | Op::UpdateLocal(..)) {
                     rep.hit(&format!("{}.{}", op.name(), imp.starts_with("true")));
                 }
-                let ans = m.ask(&line);
-                rep.compare("lww.system", || json!({"history": hist}), &imp, &ans)
+                // model asked until the first disagreement only; the real run and its oracles go on
+                if live.get() {
+                    let ans = m.ask(&line);
+                    if !rep.compare("lww.system", || json!({"history": hist}), &imp, &ans) {
+                        live.set(false);
+                        rep.hit("system.real_only_after_divergence");
+                    }
+                }
             };
             for i in 0..n {
                 run(Op::UpdateLocal(i, i, 0, 0), &mut reps, &mut hist, &mut rep, &mut m);
             }
             let nops = 20 + r.below(60) as usize;
-            let mut good = true;
             for _ in 0..nops {
                 let rr = r.below(n as u64) as usize;
                 let mm = r.below(n as u64) as usize;
@@ -679,18 +1300,18 @@ fn main() {
                     }
                     1 | 2 if !alive.is_empty() => {
                         let (am, ai) = *r.pick(&alive);
-                        good &= run(Op::Refute(rr, am, ai), &mut reps, &mut hist, &mut rep, &mut m);
+                        run(Op::Refute(rr, am, ai), &mut reps, &mut hist, &mut rep, &mut m);
                     }
                     3..=5 => {
                         let from = (rr + 1 + r.below(n as u64 - 1) as usize) % n;
                         let k = 1 + r.below(n as u64) as usize;
                         let mut g = to_upds(&reps[from].states_for_gossip(k), &names);
                         r.shuffle(&mut g);
-                        good &= run(Op::Merge(rr, g), &mut reps, &mut hist, &mut rep, &mut m);
+                        run(Op::Merge(rr, g), &mut reps, &mut hist, &mut rep, &mut m);
                     }
-                    6 | 7 => good &= run(Op::Suspect(rr, mm, cur.unwrap_or(0)), &mut reps, &mut hist, &mut rep, &mut m),
-                    8 => good &= run(Op::Fail(rr, mm), &mut reps, &mut hist, &mut rep, &mut m),
-                    _ => good &= run(Op::MarkHealthy(rr, mm), &mut reps, &mut hist, &mut rep, &mut m),
+                    6 | 7 => run(Op::Suspect(rr, mm, cur.unwrap_or(0)), &mut reps, &mut hist, &mut rep, &mut m),
+                    8 => run(Op::Fail(rr, mm), &mut reps, &mut hist, &mut rep, &mut m),
+                    _ => run(Op::MarkHealthy(rr, mm), &mut reps, &mut hist, &mut rep, &mut m),
                 }
                 // oracle: nobody records (in particular: fails) m at an incarnation m never announced
                 for (ri, rp) in reps.iter().enumerate() {
@@ -707,12 +1328,9 @@ fn main() {
                         }
                     }
                 }
-                if !good {
-                    break;
-                }
             }
             // anti-entropy: everybody receives everybody's registers (two different orders) => identical views
-            if good {
+            {
                 let mut union: Vec<Upd> = Vec::new();
                 for rp in &reps {
                     union.extend(to_upds(&all_real(rp), &names));
@@ -721,11 +1339,11 @@ fn main() {
                     let mut u = union.clone();
                     r.shuffle(&mut u);
                     if i % 2 == 0 {
-                        good &= run(Op::Merge(i, u), &mut reps, &mut hist, &mut rep, &mut m);
+                        run(Op::Merge(i, u), &mut reps, &mut hist, &mut rep, &mut m);
                     } else {
                         let cut = r.below(u.len() as u64 + 1) as usize;
-                        good &= run(Op::Merge(i, u[..cut].to_vec()), &mut reps, &mut hist, &mut rep, &mut m);
-                        good &= run(Op::Merge(i, u[cut..].to_vec()), &mut reps, &mut hist, &mut rep, &mut m);
+                        run(Op::Merge(i, u[..cut].to_vec()), &mut reps, &mut hist, &mut rep, &mut m);
+                        run(Op::Merge(i, u[cut..].to_vec()), &mut reps, &mut hist, &mut rep, &mut m);
                     }
                 }
                 let v0 = cview(&reps[0], &names);
@@ -1031,6 +1649,85 @@ fn new_mgr(local: usize, max_delta: u64, names: &[String]) -> GossipMembershipMa
     GossipMembershipManager::new(names[local].clone(), cfg, Arc::new(MemoryTransport::new(names[local].clone())))
 }
 
+/// directed manager scripts: a Sync whose `sender_time` is behind the timestamps of its own states
+/// and whose states are not newest-first, a Suspect on a member received that way, the Sync again
+fn directed_manager(rep: &mut Report, m: &mut Model, names: &[String]) {
+    let rt = tokio::runtime::Builder::new_current_thread().build().unwrap();
+    let _guard = rt.enter();
+    let local = K - 1;
+    let sender = K - 2;
+    let scripts: Vec<(&str, Vec<MOp>)> = vec![
+        (
+            "sync_behind_its_states_then_suspect_then_sync_again",
+            vec![
+                MOp::Sync(sender, 0, vec![up(2, 'H', 3, 1), up(1, 'H', 9, 1)]),
+                MOp::Suspect(1, 1),
+                MOp::Sync(sender, 0, vec![up(2, 'H', 3, 1), up(1, 'H', 9, 1)]),
+            ],
+        ),
+        (
+            "sync_behind_its_states_then_suspect_then_late_update",
+            vec![
+                MOp::AddPeer(2),
+                MOp::Sync(sender, 1, vec![up(2, 'H', 4, 0), up(0, 'D', 6, 0), up(1, 'H', 14, 2)]),
+                MOp::Suspect(1, 2),
+                MOp::Sync(sender, 2, vec![up(1, 'H', 12, 2)]),
+            ],
+        ),
+    ];
+    for (name, ops) in scripts {
+        let g = new_mgr(local, 100, names);
+        m.ask(&format!("mgr_new 0 {local} 100"));
+        let mut lines: Vec<String> = vec![];
+        let mut prev = (cview_of_list(&g.membership_view(), names), g.lamport_time());
+        let mut seen_max: [Option<(u64, u64, usize)>; K] = [None; K];
+        let mut suspected: [Option<(usize, u64, u64)>; K] = [None; K];
+        for op in &ops {
+            let line = op.line(0);
+            lines.push(line.clone());
+            op.apply(&g, names);
+            let now = (cview_of_list(&g.membership_view(), names), g.lamport_time());
+            let l = lines.clone();
+            mono_oracles(rep, "tensor_chain.gossip.handle_gossip", "msg", (&prev.0, prev.1), (&now.0, now.1), &|| json!({"case": name, "history": l}));
+            match op {
+                MOp::Sync(_, _, b) => {
+                    for mm in 0..sender {
+                        let dominated = b.iter().any(|u| u.m == mm) && b.iter().filter(|u| u.m == mm).all(|u| seen_max[mm].is_some_and(|mx| ukey(u) <= mx));
+                        if dominated && suspected[mm].is_some() && suspected[mm] == prev.0[mm] && now.0[mm] != prev.0[mm] {
+                            rep.violation_capped(
+                                "tensor_chain.gossip.handle_sync/local_event_lost_to_redelivery",
+                                &format!("the manager's own Degraded verdict on member {mm} was replaced when a Sync of already-seen / older states was handled"),
+                                json!({"case": name, "history": lines, "before": regs_txt(&prev.0), "after": regs_txt(&now.0)}),
+                            );
+                        }
+                    }
+                    for u in b {
+                        if seen_max[u.m].map_or(true, |mx| ukey(u) > mx) {
+                            seen_max[u.m] = Some(ukey(u));
+                        }
+                    }
+                }
+                MOp::Suspect(mm, _) => {
+                    if now.0[*mm] != prev.0[*mm] {
+                        suspected[*mm] = now.0[*mm];
+                        if let Some(e) = now.0[*mm] {
+                            if seen_max[*mm].map_or(true, |mx| vkey(e) > mx) {
+                                seen_max[*mm] = Some(vkey(e));
+                            }
+                        }
+                    }
+                }
+                _ => {}
+            }
+            prev = now;
+            let imp = mgr_answer(&g, names);
+            let ans = strip_mgr(&m.ask(&line));
+            rep.compare("mgr.directed", || json!({"case": name, "history": lines}), &imp, &ans);
+        }
+        rep.case("mgr.directed", Some(name));
+    }
+}
+
 fn manager_streams(_args: &Args, root: &Rng, rep: &mut Report, m: &mut Model, names: &[String], scale: u64) {
     // handle_suspect on the local node spawns a broadcast task: needs a runtime context (tasks never run)
     let rt = tokio::runtime::Builder::new_current_thread().build().unwrap();
@@ -1106,6 +1803,7 @@ fn manager_streams(_args: &Args, root: &Rng, rep: &mut Report, m: &mut Model, na
         let nops = 8 + r.below(30) as usize;
         let mut lines: Vec<String> = vec![];
         let mut pending: Vec<usize> = vec![]; // harness-side mirror only for branch accounting
+        let mut live = true;
         let mut prev = (cview_of_list(&g.membership_view(), names), g.lamport_time(), g.incarnation_rejected_count());
         for _ in 0..nops {
             let mm = r.below(members as u64) as usize;
@@ -1116,7 +1814,15 @@ fn manager_streams(_args: &Args, root: &Rng, rep: &mut Report, m: &mut Model, na
                     let s = if r.chance(1, 2) { sender } else { r.below(members as u64) as usize };
                     let n = r.below(4) as usize;
                     let hi = if small_delta { 5 } else { 3 };
-                    MOp::Sync(s, r.below(6), (0..n).map(|_| gen_upd(&mut r, members, hi)).collect())
+                    let mut b: Vec<Upd> = (0..n).map(|_| gen_upd(&mut r, members, hi)).collect();
+                    if r.chance(1, 3) {
+                        // states stamped around / ahead of the receiver's clock, `sender_time` left behind them
+                        for u in &mut b {
+                            u.ts = 2 * u.ts + prev.1.saturating_sub(1);
+                        }
+                        rep.hit("mgr.sync.states_ahead_of_sender_time");
+                    }
+                    MOp::Sync(s, r.below(6), b)
                 }
                 5 | 6 => MOp::Suspect(if r.chance(1, 8) { local } else { mm }, if r.chance(3, 4) { cur.unwrap_or(0) } else { r.below(3) }),
                 _ => MOp::Alive(mm, cur.unwrap_or(0) + r.below(if small_delta { 5 } else { 3 })),
@@ -1159,9 +1865,12 @@ fn manager_streams(_args: &Args, root: &Rng, rep: &mut Report, m: &mut Model, na
             mono_oracles(rep, "tensor_chain.gossip.handle_gossip", "msg", (&prev.0, prev.1), (&now.0, now.1), &|| json!({"history": l, "max_incarnation_delta": max_delta}));
             prev = now;
             let imp = mgr_answer(&g, names);
-            let ans = strip_mgr(&m.ask(&line));
-            if !rep.compare("mgr.mixed", || json!({"history": lines, "max_incarnation_delta": max_delta}), &imp, &ans) {
-                break;
+            if live {
+                let ans = strip_mgr(&m.ask(&line));
+                if !rep.compare("mgr.mixed", || json!({"history": lines, "max_incarnation_delta": max_delta}), &imp, &ans) {
+                    live = false; // real manager + oracles continue without the model
+                    rep.hit("mgr.real_only_after_divergence");
+                }
             }
         }
         rep.case("mgr.mixed", Some(&lines.join("/")));
